@@ -105,3 +105,95 @@ pub fn run_space(
 pub fn no_extra(_: &Case, _: &[u8], _: &Outcome) -> Vec<Finding> {
     vec![]
 }
+
+/// Build histories on one thread: every sequence of forced (version, level) builds from the list below is executed
+/// on its OWN FRESH THREAD (so the per-thread history is exactly the sequence) and every build of it is judged by
+/// the ordinary per-symbol oracle. Sequences: [a, b, a] for every ordered pair of distinct versions (revisit after
+/// something else; large then small; small then large), every triple over eight versions, and [x, y, x] over
+/// (version, level) kinds of two versions. Per-thread caches keyed too coarsely, recycled buffers and
+/// most-recently-used slots show here deterministically, whatever the worker pool happens to interleave.
+pub fn run_histories(col: &Collector, space_idx: u64, props: &[&str], thorough: bool) {
+    use crate::refmodel as r;
+    use crate::spaces::{content, Family};
+    use crate::subject::Opts;
+    let t0 = std::time::Instant::now();
+    let mut seqs: Vec<Vec<(u8, u8)>> = vec![];
+    for a in 1..=40u8 {
+        for b in 1..=40u8 {
+            if a != b && (thorough || (a as usize + b as usize) % 2 == 1 || a <= 12 && b <= 12) {
+                let e = (a + b) % 4;
+                seqs.push(vec![(a, e), (b, e), (a, e)]);
+            }
+        }
+    }
+    let set = [1u8, 2, 5, 8, 10, 12, 20, 40];
+    for &x in &set {
+        for &y in &set {
+            for &z in &set {
+                if x != y && y != z {
+                    seqs.push(vec![(x, 0), (y, 1), (z, 0)]);
+                }
+            }
+        }
+    }
+    for v in [5u8, 7] {
+        for e1 in 0..4u8 {
+            for e2 in 0..4u8 {
+                if e1 != e2 {
+                    seqs.push(vec![(v, e1), (v, e2), (v, e1)]);
+                    seqs.push(vec![(v, e1), (v + 1, e2), (v, e1), (v + 1, e2)]);
+                }
+            }
+        }
+    }
+    let viol0 = col.violation_count.load(Ordering::Relaxed);
+    let builds = AtomicU64::new(0);
+    pool::par_for(seqs.len(), |i| {
+        let seq = seqs[i].clone();
+        let res = std::thread::Builder::new()
+            .stack_size(32 << 20)
+            .spawn(move || {
+                crate::subject::install_panic_hook();
+                let mut out: Vec<(usize, Vec<u8>, Opts, Vec<Finding>, Option<u64>)> = vec![];
+                for (step, &(v, e)) in seq.iter().enumerate() {
+                    let len = r::cap(v as usize, e as usize, 2).min(9 + step);
+                    let input = content(Family::Ctr, 2, len);
+                    let o = Opts { mode: None, ecl: Some(e), version: Some(v), mask: None, order: 0 };
+                    let built = subject::build(&input, &o);
+                    let mut f = core::check_outcome(&built, &input, &o);
+                    let mut d = None;
+                    if let Outcome::Ok(q) = &built {
+                        f.extend(core::check_symbol(q, &input, &o));
+                        d = Some(core::obs_digest(q));
+                    }
+                    out.push((step, input, o, f, d));
+                }
+                out
+            })
+            .map(|h| h.join());
+        match res {
+            Ok(Ok(out)) => {
+                for (step, input, o, f, d) in out {
+                    builds.fetch_add(1, Ordering::Relaxed);
+                    col.eval(d);
+                    for fd in f {
+                        if props.contains(&fd.prop) {
+                            let mut cj = subject::case_json(&input, &o);
+                            cj["kind"] = json!("build-history");
+                            cj["sequence"] = json!(seqs[i].iter().map(|(v, e)| json!([v, e])).collect::<Vec<_>>());
+                            cj["step"] = json!(step);
+                            col.violation((space_idx, i as u64), format!("{}-after-history", fd.key), format!("build {} of the same-thread history {:?} (version, level): {}", step, seqs[i], fd.what), cj);
+                        }
+                    }
+                }
+            }
+            _ => col.machinery_error(format!("history thread for {:?} could not be run", seqs[i])),
+        }
+    });
+    col.space(json!({
+        "name": "S_hist", "cases": builds.load(Ordering::Relaxed), "sequences": seqs.len(), "exhaustive": true,
+        "what": format!("same-thread build histories, each on its own fresh thread: [a, b, a] for {} ordered pairs of distinct versions, all triples over versions {:?} with changing neighbours, and level-changing revisits of versions 5-8; every build judged by the per-symbol oracle", if thorough { "all 1560" } else { "every second of the 1560 (and all with both versions <= 12)" }, set),
+        "violations": col.violation_count.load(Ordering::Relaxed) - viol0,
+        "wall_s": (t0.elapsed().as_secs_f64() * 100.0).round() / 100.0,
+    }));
+}
